@@ -56,7 +56,14 @@ func noUnderPromo(ctx context.Context, b *board.Board) (board.MovePriorityFn, bo
 	return search.MVVLVA, board.Move.IsNotUnderPromotion
 }
 
-func searchCfg(name string) (search.AlphaBeta, bool) {
+func searchCfg(name string) (search.Search, bool) {
+	if name == "minimax" { // the repository's own reference search
+		return search.Minimax{Eval: search.Leaf{Eval: eval.Material{}}}, true
+	}
+	return searchCfgAB(name)
+}
+
+func searchCfgAB(name string) (search.AlphaBeta, bool) {
 	leaf := search.Leaf{Eval: eval.Material{}}
 	quiet := search.Quiescence{Explore: capturesOnly, Eval: leaf}
 	switch name {
@@ -735,6 +742,33 @@ func genC12(o *Out, r *rand.Rand, thorough bool) {
 			o.Nontrivial(line)
 		}
 		o.Count(fmt.Sprintf("tt-size:%d", size))
+	}
+	// the repository's reference search (minimax.go) is anchored in C12 as well: halted at every one of its polls (one per
+	// node and one at the end), it must say so and hand the board back; implementation vs the model `minimaxSearch` (no reference
+	// column: its value at a drawn root is 0 by design)
+	mm := n / 6
+	for i := 0; i < mm; i++ {
+		start, moves, b := noRepeatLine(r, 8)
+		d := 1 + r.Intn(2)
+		if pieceCount(b) <= 6 {
+			d = 2 + r.Intn(2)
+		}
+		ms, _ := searchCfg("minimax")
+		ctx := newPollCtx(0)
+		ms.Search(ctx, &search.Context{TT: search.NoTranspositionTable{}}, b.Fork(), d)
+		total := ctx.polls
+		if total > 60000 {
+			continue
+		}
+		for _, k := range []int{0, 1, 2, total / 2, total - 1, total, total + 1, 1 + r.Intn(total+1)} {
+			if k < 0 {
+				continue
+			}
+			line := fmt.Sprintf("search 0 minimax~ 0 0 %s ; %s", start, strings.Join(append(append([]string{}, moves...), fmt.Sprintf("s:%d:%s:%d", d, fullWin, k), fmt.Sprintf("s:%d:%s:0", maxInt(1, d-1), fullWin)), " "))
+			o.do(line)
+			o.Count("minimax:cancel-points")
+			o.Nontrivial(line)
+		}
 	}
 }
 
